@@ -6,5 +6,10 @@ export GOFLAGS=-mod=mod GOPROXY=off GOSUMDB=off GOTOOLCHAIN=local
 mkdir -p bin evidence replays
 if [ -d tools/instr ]; then ( cd tools/instr && go build -o ../../bin/instr . ); fi
 # warm the build cache: one build of each checker against the current tree
-for d in harness/checks/*/; do id=$(basename "$d" | tr a-z A-Z); VERIF_WARM=1 ./vcheck "$id" quick >/dev/null 2>&1 || true; done
+# runtime-model conformance battery (exit 2 on mismatch)
+VERIF_DIR=/tmp/verif-setup-$$ ./vcheck conform quick > bin/conform.log 2>&1 || { cat bin/conform.log; echo "setup: conformance battery FAILED"; exit 2; }
+tail -1 bin/conform.log
+rm -rf /tmp/verif-setup-$$
+# warm the Go build cache: build (not run) every checker once against the current tree
+for d in harness/checks/*/; do id=$(basename "$d"); [ "$id" = conform ] && continue; VERIF_BUILD_ONLY=1 ./vcheck "$(echo $id | tr a-z A-Z)" quick >/dev/null 2>&1 || echo "setup: warning: $id did not build"; done
 echo setup done
